@@ -16,6 +16,10 @@ import (
 type C16Case struct {
 	D     *Decl    `json:"decl"`
 	Chain []string `json:"chain"` // command IDs of the active chain
+	// Given: IDs of string options of the parser's own groups that are given a
+	// value ("given"+ID) on the command line before --help: what the user
+	// typed is not a default and must not show up in the help
+	Given []string `json:"given,omitempty"`
 }
 
 var _ = Register("C16", func() interface{} { return new(C16Case) }, func(c interface{}) string { return c16Oracle(c.(*C16Case)) })
@@ -76,6 +80,8 @@ func (g *c16Gen) opt(shorts map[string]bool, forceHidden bool) Opt {
 					o.Defaults = append(o.Defaults, fmt.Sprintf("55%04d.25", g.n))
 				case o.Kind.IsMap():
 					o.Defaults = append(o.Defaults, "k"+g.mk()+":v"+g.mk())
+				case o.Kind == KString && rapid.IntRange(0, 11).Draw(t, "dashDefault") == 0:
+					o.Defaults = append(o.Defaults, "-") // (the usual "standard input/output" default)
 				default:
 					o.Defaults = append(o.Defaults, "df"+g.mk())
 				}
@@ -195,6 +201,11 @@ func genC16(t *rapid.T) *C16Case {
 	}
 	g.cmd(&d.Root, 0)
 	c := &C16Case{D: d}
+	for _, o := range d.AllOpts() {
+		if len(o.Chain) == 1 && o.Kind == KString && o.Long != "" && len(o.Choices) == 0 && rapid.IntRange(0, 5).Draw(t, "given") == 0 {
+			c.Given = append(c.Given, o.ID)
+		}
+	}
 	cur := &d.Root
 	for len(cur.Cmds) > 0 && rapid.IntRange(0, 9).Draw(t, "descend") < 7 {
 		cur = &cur.Cmds[rapid.IntRange(0, len(cur.Cmds)-1).Draw(t, "pick")]
@@ -316,7 +327,18 @@ func c16Oracle(c *C16Case) string {
 		return ""
 	}
 	var err error
-	if pm := Safely(func() { _, err = b.P.ParseArgs(append(append([]string{}, words...), "--help")) }); pm != "" {
+	var given []string
+	for _, o := range d.AllOpts() {
+		for _, id := range c.Given {
+			if id == o.ID && len(o.Chain) == 1 && o.Long != "" {
+				given = append(given, "--"+o.NsLong+"=given"+o.ID+"value")
+			}
+		}
+	}
+	if len(given) > 0 {
+		st.Label("options given on the command line before --help")
+	}
+	if pm := Safely(func() { _, err = b.P.ParseArgs(append(append(given, words...), "--help")) }); pm != "" {
 		// no help at all: nothing of the visible interface is shown
 		return fmt.Sprintf("help for chain %q could not be generated (panic), the visible interface is not shown: %s", words, pm)
 	}
@@ -389,6 +411,12 @@ func c16Oracle(c *C16Case) string {
 			vis = append(vis, vo{o, chainSet[cm.ID] && len(chain) <= len(chainCmds) && chain[len(chain)-1] == chainCmds[len(chain)-1]})
 		}
 	})
+	// (0) what was typed on this command line is not a default
+	for _, gv := range given {
+		if v := gv[strings.Index(gv, "=")+1:]; strings.Contains(help, v) {
+			return fmt.Sprintf("help shows %q, the value given to an option on this very command line, %q\n%s", v, gv, trunc(help))
+		}
+	}
 	// (1) nothing hidden, no masked default - anywhere in help or man page
 	for _, m := range hiddenMarkers {
 		if strings.Contains(help, m) && !throughHidden {
